@@ -4,6 +4,7 @@ package main
 
 import (
 	"bufio"
+	"os"
 	"fmt"
 	"os/exec"
 	"strings"
@@ -11,6 +12,9 @@ import (
 
 // modelAnswers pipes the request lines to the Lean driver and returns one answer per line.
 func modelAnswers(lines []string) ([]string, error) {
+	if f := os.Getenv("VERIF_SAVE_LINES"); f != "" {
+		os.WriteFile(f, []byte(strings.Join(lines, "\n")+"\n"), 0o644)
+	}
 	cmd := exec.Command(opts.Driver)
 	cmd.Stdin = strings.NewReader(strings.Join(lines, "\n") + "\n")
 	outp, err := cmd.StdoutPipe()
